@@ -26,6 +26,9 @@ type Prop struct {
 	ExpectProbes                               []string
 	PureRideAlong                              []string
 	LevelText, LevelNote, Technique, DesignRef string
+	Also                                       []string // sub-checks (other harnesses) that decide further clauses of this property
+	Sub                                        bool     // a sub-check: run only as part of its parent, not registered on its own
+	parent                                     *Prop
 }
 
 var harnesses []*Harness
@@ -49,4 +52,12 @@ func harnessByName(n string) *Harness {
 	}
 	infra("unknown harness %s", n)
 	return nil
+}
+
+// Reported is the property id under which findings of this (sub-)check are reported.
+func (p *Prop) Reported() string {
+	if p.parent != nil {
+		return p.parent.ID
+	}
+	return p.ID
 }
